@@ -515,7 +515,7 @@ class Element(UnicodeMixin):
         """
         parts = [p for p in path.split("/") if p]
         if len(parts) == 1:
-            return self.getChildren(path)
+            return self.getChildren(parts[0])
         return self.__childrenAtPath(parts)
 
     def getChildren(self, name=None, ns=None):
@@ -994,7 +994,7 @@ class Element(UnicodeMixin):
             prefix, leaf = splitPrefix(leaf)
             if prefix is not None:
                 ns = node.resolvePrefix(prefix)
-            result = child.getChildren(leaf)
+            result = child.getChildren(leaf, ns)
         return result
 
     def __len__(self):
